@@ -91,5 +91,57 @@ fn selfcheck() -> Result<String, String> {
     let tsv = std::fs::read_to_string(root.join("reference/struct_layout.tsv")).map_err(|e| format!("reference/struct_layout.tsv: {}", e))?;
     let layout = verif_model::elfw::parse_layout(&tsv);
     let n = verif_model::elfw::selfcheck(&layout)?;
-    Ok(format!("writer layout agrees with <elf.h> on {} fields", n))
+    // the writer and the independent reader against linker-produced bytes: every header of every sample object,
+    // decoded and re-encoded, must reproduce the file bytes; the GNU hash builder must reproduce .gnu.hash
+    let mut headers = 0;
+    let mut hashes = 0;
+    for (name, b) in verif_model::inputs::samples().iter() {
+        headers += verif_model::refs::roundtrip_headers(b).map_err(|e| format!("sample {}: {}", name, e))?;
+        hashes += rebuild_gnu_hash(b).map_err(|e| format!("sample {}: {}", name, e))?;
+    }
+    if verif_model::inputs::samples().len() < 8 {
+        return Err(format!("only {} sample objects found under corpus/", verif_model::inputs::samples().len()));
+    }
+    Ok(format!("writer layout agrees with <elf.h> on {} fields; {} headers of {} sample objects re-encode byte for byte; {} .gnu.hash sections rebuilt byte for byte", n, headers, verif_model::inputs::samples().len(), hashes))
+}
+
+/// Rebuild the .gnu.hash section of a sample object from its dynamic symbol names with the independent builder and
+/// compare byte for byte (validates refs::build_gnu_hash against the linker).
+fn rebuild_gnu_hash(b: &[u8]) -> Result<usize, String> {
+    use verif_model::{elfw, refs};
+    let (e, eh) = refs::read_ehdr(b).ok_or("ehdr")?;
+    if eh.e_shoff == 0 || eh.e_shnum == 0 {
+        return Ok(0);
+    }
+    let sh = |i: usize| refs::read_shdr(e, b, eh.e_shoff as usize + i * elfw::shdr_size(e));
+    let mut n = 0;
+    for i in 0..eh.e_shnum as usize {
+        let Some(h) = sh(i) else { continue };
+        if h.sh_type != elfw::SHT_GNU_HASH {
+            continue;
+        }
+        let sec = b.get(h.sh_offset as usize..(h.sh_offset + h.sh_size) as usize).ok_or("gnu hash range")?;
+        let dynsym = sh(h.sh_link as usize).ok_or("dynsym")?;
+        let dynstr = sh(dynsym.sh_link as usize).ok_or("dynstr")?;
+        let strs = b.get(dynstr.sh_offset as usize..(dynstr.sh_offset + dynstr.sh_size) as usize).ok_or("dynstr range")?;
+        let p = refs::GnuParams { nbucket: refs::rd_u32(e.le, sec, 0).ok_or("hdr")?, symoffset: refs::rd_u32(e.le, sec, 4).ok_or("hdr")?, nbloom: refs::rd_u32(e.le, sec, 8).ok_or("hdr")?, shift: refs::rd_u32(e.le, sec, 12).ok_or("hdr")? };
+        let nsyms = (dynsym.sh_size as usize) / elfw::sym_size(e);
+        // the number of hashed symbols is what the chain array holds (an executable without exported symbols has an
+        // empty table although symoffset < nsyms)
+        let fixed = 16 + p.nbloom as usize * if e.c64 { 8 } else { 4 } + p.nbucket as usize * 4;
+        let nhashed = sec.len().saturating_sub(fixed) / 4;
+        let mut names = vec![];
+        for k in p.symoffset as usize..(p.symoffset as usize + nhashed).min(nsyms) {
+            let off = dynsym.sh_offset as usize + k * elfw::sym_size(e);
+            let st_name = refs::rd_u32(e.le, b, off).ok_or("sym")? as usize;
+            let end = strs[st_name..].iter().position(|z| *z == 0).ok_or("nul")?;
+            names.push(strs[st_name..st_name + end].to_vec());
+        }
+        let rebuilt = refs::build_gnu_hash(e, &names, &p);
+        if rebuilt != sec {
+            return Err(format!(".gnu.hash rebuilt from {} names differs from the linker's section ({} vs {} bytes)", names.len(), rebuilt.len(), sec.len()));
+        }
+        n += 1;
+    }
+    Ok(n)
 }
